@@ -122,6 +122,17 @@ def check_copy(case, ctx):
     after = [(p.id, p.name, p.mu, p.sigma) for t in teams for p in t]
     if before != after:
         raise Violation("deepcopy:aliasing", f"{kind}: mutating the copy changed the original")
+    # snapshots: distinct objects that share an id (a deepcopy keeps the id) but hold different values, copied in ONE deepcopy call
+    snap = copy.deepcopy(first)
+    snap.mu = first.mu + 1.0
+    snap.sigma = first.sigma * 0.5 + 1.0
+    both = copy.deepcopy([[first, snap], {"later": snap, "earlier": first}])
+    got = [(both[0][0].mu, both[0][0].sigma), (both[0][1].mu, both[0][1].sigma), (both[1]["later"].mu, both[1]["later"].sigma), (both[1]["earlier"].mu, both[1]["earlier"].sigma)]
+    want = [(first.mu, first.sigma), (snap.mu, snap.sigma), (snap.mu, snap.sigma), (first.mu, first.sigma)]
+    if got != want:
+        raise Violation("deepcopy:snapshots-sharing-an-id", f"{kind}: deepcopy of two snapshots of one player (same id, different values) gives {got}, expected {want}")
+    if both[0][0] is both[0][1]:
+        raise Violation("deepcopy:snapshots-merged", f"{kind}: two distinct objects became one in the copy")
     single = copy.deepcopy(first)
     if single is first or single.id != first.id or single.name != first.name or not same(single.mu, first.mu):
         raise Violation("deepcopy:single", f"{kind}: deepcopy of one rating: {vars(single)} vs {vars(first)}")
